@@ -14,7 +14,8 @@
 (* Negative controls: PinnedEnv (duplicates resolved by sorting NAME=value),             *)
 (* PinnedVars (configuration variables dropped; stage variables replace task variables). *)
 EXTENDS Naturals, Sequences, FiniteSets, TLC
-CONSTANTS PinnedEnv, PinnedVars
+CONSTANTS PinnedEnv, PinnedVars,
+          Accumulate      \* negative control: a variation's values stay in the environment of later variations
 VARIABLES kind, defs, ord, mode
 vars == <<kind, defs, ord, mode>>
 No == 0
@@ -40,6 +41,10 @@ Def(l) == IF l \in Eff THEN Val(l) ELSE No
 
 \* intended
 Resolve == IF Eff = {} THEN No ELSE Val(Max(Eff))
+\* intended, for a later variation of the same task that does not define the name ("the CURRENT
+\* variation"), and for a direct run of the task after the pipeline (stage level gone)
+EffLater == IF kind = "env" THEN Eff \ {6} ELSE defs \ {StageLevel}
+ResolveLater == IF EffLater = {} THEN No ELSE Val(Max(EffLater))
 
 \* --- environment, as the code computes it ---
 TaskEnv == Over(Def(3), Def(4))
@@ -60,6 +65,15 @@ ImplVar == Over(RunnerVars, TaskVars)
 StageTaskDir == IF mode = "stage" /\ Def(3) # No THEN Def(3) ELSE Def(2)
 ImplDir == IF StageTaskDir # No THEN StageTaskDir ELSE Def(1)
 
+\* a second variation that does not define X: compiler.go merges each variation into the task's
+\* env afresh (env.Merge(variant) per command), nothing of the first variation remains
+JobEnvLater == IF Accumulate THEN JobEnv ELSE Over(Def(2), StageTaskEnv)
+ImplEnvLater == Over(Def(1), JobEnvLater)
+\* a direct run after the pipeline: the task object itself was never touched by the stage
+ImplVarLater == Over(RunnerVars, Def(3))
+ImplDirLater == IF Def(2) # No THEN Def(2) ELSE Def(1)
+
 Impl == CASE kind = "env" -> ImplEnv [] kind = "var" -> ImplVar [] OTHER -> ImplDir
-ImplEqualsResolve == Impl = Resolve
+ImplLater == CASE kind = "env" -> ImplEnvLater [] kind = "var" -> ImplVarLater [] OTHER -> ImplDirLater
+ImplEqualsResolve == Impl = Resolve /\ ImplLater = ResolveLater
 =======================================================================
